@@ -66,6 +66,9 @@ structure Node where
   parts : List (Str × Part)           -- `std::map<String, MeshPartNodeBin>`: sorted by name
   partitions : List Partition         -- file order
   charts : List (Str × Chart) := []   -- `MeshAtlas`: `std::map<String, Chart>`, sorted by name
+  /-- the world dimension (number of coordinates per vertex) of the node's mesh type
+      `ConformalMesh<Shape, world_dim>`; it is a template parameter in FEAT, so a node always knows it -/
+  wdim : Nat := 0
   deriving DecidableEq, Repr
 
 /-! ### parser state -/
@@ -104,7 +107,8 @@ inductive Frame where
 
 structure St where
   shape : Shape
-  dim : Nat
+  dim : Nat                           -- shape dimension
+  wdim : Nat                          -- world dimension (coordinates per vertex)
   stack : List Frame                  -- top first
   node : Node
   links : List (Str × Str)            -- MeshNodeLinker: (mesh part, chart) in file order
@@ -150,7 +154,7 @@ def meshCreate (st : St) (line : Nat) (m : Markup) : Except Err Frame :=
           else match readInt d with
             | none => cErr line
             | some wd =>
-              if wd != (st.dim : Int) then cErr line
+              if wd != (st.wdim : Int) then cErr line
               else
                 let toks := splitWs sz
                 if toks.length != st.dim + 1 then cErr line
@@ -419,7 +423,7 @@ def openM (st : St) (line : Nat) (m : Markup) : Except Err St :=
     else gErr line
   | Frame.chart name _ :: below =>
     -- `DimensionalChartHelper`: Circle / Bezier in 2D, Sphere / SurfaceMesh / Extrude in 3D
-    if st.dim == 2 && nm == "Circle" then
+    if st.wdim == 2 && nm == "Circle" then
       match checkAttribs line (specOf "Circle") m.attrs with
       | .error e => .error e
       | .ok _ =>
@@ -428,7 +432,7 @@ def openM (st : St) (line : Nat) (m : Markup) : Except Err St :=
         | .ok (ch, degenerate) =>
           let st1 := { st with stack := Frame.chart name (some ch) :: below, unmodelled := st.unmodelled || degenerate }
           if m.closed then .ok st1 else .ok { st1 with stack := Frame.chartItem :: st1.stack }
-    else if st.dim == 3 && nm == "Sphere" then
+    else if st.wdim == 3 && nm == "Sphere" then
       match checkAttribs line (specOf "Sphere") m.attrs with
       | .error e => .error e
       | .ok _ =>
@@ -437,7 +441,7 @@ def openM (st : St) (line : Nat) (m : Markup) : Except Err St :=
         | .ok ch =>
           let st1 := { st with stack := Frame.chart name (some ch) :: below }
           if m.closed then .ok st1 else .ok { st1 with stack := Frame.chartItem :: st1.stack }
-    else if st.dim == 2 && nm == "Bezier" then
+    else if st.wdim == 2 && nm == "Bezier" then
       match checkAttribs line (specOf "Bezier") m.attrs with
       | .error e => .error e
       | .ok _ =>
@@ -465,7 +469,7 @@ def openM (st : St) (line : Nat) (m : Markup) : Except Err St :=
                         | some os => (readQ os).getD 1
                       .ok { st with stack := Frame.bezier size cl o [] [] :: st.stack }
           | _, _ => gErr line
-    else if st.dim == 3 && (nm == "SurfaceMesh" || nm == "Extrude") then
+    else if st.wdim == 3 && (nm == "SurfaceMesh" || nm == "Extrude") then
       -- not modelled: remember that, give the chart a placeholder and skip the element
       push { st with stack := Frame.chart name (some (Chart.sphere 0 0 0 0)) :: below, unmodelled := true } Frame.dummy
     else gErr line
@@ -552,7 +556,7 @@ def contentM (st : St) (line : Nat) (s : Str) : Except Err St :=
     if acc.length ≥ count then cErr line
     else
       let toks := splitWs s
-      if toks.length != st.dim then cErr line
+      if toks.length != st.wdim then cErr line
       else match mapMOpt readQ toks with
         | none => cErr line
         | some v => .ok { st with stack := Frame.verts count (v :: acc) :: rest }
@@ -646,7 +650,9 @@ def rootType (line : Nat) (m : Markup) : Except Err (Option (Shape × Int × Int
 
 /-- the mesh types instantiated by the harness -/
 def supported (sh : Shape) (sd wd : Int) : Bool :=
-  sd == wd && ((sh == .hyper && (sd == 1 || sd == 2 || sd == 3)) || (sh == .simplex && (sd == 2 || sd == 3)))
+  (sd == wd && ((sh == .hyper && (sd == 1 || sd == 2 || sd == 3)) || (sh == .simplex && (sd == 2 || sd == 3)))) ||
+  -- mesh types embedded in a higher-dimensional world: surfaces in 3D, curves in 2D / 3D
+  (sd == 2 && wd == 3) || (sh == .hyper && sd == 1 && (wd == 2 || wd == 3))
 
 /-- `MeshNodeLinker::execute`: some mapping index of some mesh part is not an entity index of the root mesh
     (no root mesh: nothing can be checked) -/
@@ -686,12 +692,13 @@ def resolveDeduct : List Str → Node → Option Node
     | _, _ => none
 
 /-- `MeshFileReader::parse<RootMesh_>` for a fixed mesh type, from the root markup on, then `linker.execute()` -/
-def parseBody (sh : Shape) (dim : Nat) (m : Markup) (iline : Nat) (rest : List Str) : Outcome :=
+def parseBody (sh : Shape) (dim wdim : Nat) (m : Markup) (iline : Nat) (rest : List Str) : Outcome :=
   match checkAttribs iline (specOf "root") m.attrs with
   | .error e => .err e
   | .ok _ =>
     -- MeshNodeParser::create (name and version were verified by read_root_markup already)
-    let st0 : St := { shape := sh, dim := dim, stack := [Frame.root], node := { mesh := none, parts := [], partitions := [] },
+    let st0 : St := { shape := sh, dim := dim, wdim := wdim, stack := [Frame.root],
+                      node := { mesh := none, parts := [], partitions := [], wdim := wdim },
                       links := [], deduct := [], unmodelled := false }
     match scanLoop meshClient rest iline [m.name] st0 with
     | .error e => .err e
@@ -715,17 +722,17 @@ def parseMeshFile (text : Str) : Outcome :=
     | .ok none => .notype
     | .ok (some (sh, sd, wd)) =>
       if !supported sh sd wd then .notype
-      else parseBody sh sd.toNat m iline rest
+      else parseBody sh sd.toNat wd.toNat m iline rest
 
 /-- second-generation parse: the type is known from the first parse (the written root markup carries it only
     if a root mesh exists) -/
-def reparse (sh : Shape) (dim : Nat) (text : Str) : Outcome :=
+def reparse (sh : Shape) (dim wdim : Nat) (text : Str) : Outcome :=
   match readRoot (splitLines text) 0 with
   | .error e => .err e
   | .ok (m, iline, rest) =>
     match rootType iline m with
     | .error e => .err e
-    | .ok _ => parseBody sh dim m iline rest
+    | .ok _ => parseBody sh dim wdim m iline rest
 
 /-! ### the writer (`MeshFileWriter::write` with indentation, all mesh parts) -/
 
@@ -733,8 +740,8 @@ def sp (n : Nat) : Str := List.replicate n ' '
 def joinSp (l : List Str) : Str := " ".toList.intercalate l
 def q (s : Str) : Str := '"' :: s ++ ['"']
 
-def meshTypeStr (sh : Shape) (dim : Nat) : Str :=
-  "conformal:".toList ++ sh.name ++ ":".toList ++ showNat dim ++ ":".toList ++ showNat dim
+def meshTypeStr (sh : Shape) (dim wdim : Nat) : Str :=
+  "conformal:".toList ++ sh.name ++ ":".toList ++ showNat dim ++ ":".toList ++ showNat wdim
 
 /-- `TopoWriteHelper::write_topology` for dimensions 1..D -/
 def writeTopo (ind : Nat) (skipEmpty : Bool) (topo : List (List (List Nat))) : List Str :=
@@ -745,8 +752,8 @@ def writeTopo (ind : Nat) (skipEmpty : Bool) (topo : List (List (List Nat))) : L
       tuples.map (fun t => sp (ind + 2) ++ joinSp (t.map showNat)) ++
       [sp ind ++ "</Topology>".toList])).flatten
 
-def writeMesh (sh : Shape) (dim : Nat) (m : Mesh) : List Str :=
-  [sp 2 ++ "<Mesh type=".toList ++ q (meshTypeStr sh dim) ++ " size=".toList ++ q (joinSp (m.sizes.map showNat)) ++ ">".toList,
+def writeMesh (sh : Shape) (dim wdim : Nat) (m : Mesh) : List Str :=
+  [sp 2 ++ "<Mesh type=".toList ++ q (meshTypeStr sh dim wdim) ++ " size=".toList ++ q (joinSp (m.sizes.map showNat)) ++ ">".toList,
    sp 4 ++ "<Vertices>".toList] ++
   m.verts.map (fun v => sp 6 ++ joinSp (v.map showQ)) ++
   [sp 4 ++ "</Vertices>".toList] ++
@@ -816,11 +823,11 @@ def writeChart (name : Str) (c : Chart) : List Str :=
 def writeLines (sh : Shape) (dim : Nat) (n : Node) : List Str :=
   ["<FeatMeshFile version=\"1\"".toList ++
     (match n.mesh with
-     | some _ => " mesh=".toList ++ q (meshTypeStr sh dim)
+     | some _ => " mesh=".toList ++ q (meshTypeStr sh dim n.wdim)
      | none => []) ++ ">".toList] ++
   (n.charts.map (fun nc => writeChart nc.1 nc.2)).flatten ++
   (match n.mesh with
-   | some m => writeMesh sh dim m
+   | some m => writeMesh sh dim n.wdim m
    | none => []) ++
   (n.parts.map (fun (nm, p) => writePart nm p)).flatten ++
   (n.partitions.map writePartition).flatten ++
@@ -835,9 +842,9 @@ def printMeshFile (sh : Shape) (dim : Nat) (n : Node) : Str :=
 def tuplesOk (numIdx bound count : Nat) (ts : List (List Nat)) : Bool :=
   ts.length == count && ts.all (fun t => t.length == numIdx && t.all (· < bound))
 
-def Mesh.wf (sh : Shape) (dim : Nat) (m : Mesh) : Bool :=
+def Mesh.wf (sh : Shape) (dim wdim : Nat) (m : Mesh) : Bool :=
   m.sizes.length == dim + 1 &&
-  m.verts.length == m.sizes.getD 0 0 && m.verts.all (fun v => v.length == dim) &&
+  m.verts.length == m.sizes.getD 0 0 && m.verts.all (fun v => v.length == wdim) &&
   m.topo.length == dim &&
   (List.range dim).all (fun i => tuplesOk (nverts sh (i + 1)) (m.sizes.getD 0 0) (m.sizes.getD (i + 1) 0) (m.topo.getD i []))
 
